@@ -49,7 +49,7 @@ func genDHCPHistory(t *rapid.T) dhcpHistory {
 	h := dhcpHistory{Cfg: dhcpCfg{Net: rapid.IntRange(0, 4).Draw(t, "net"), Mode: rapid.IntRange(1, 3).Draw(t, "mode"), Quiet: rapid.IntRange(0, 3).Draw(t, "quiet") == 0, Debug: rapid.IntRange(0, 5).Draw(t, "debug") == 0}}
 	n := rapid.IntRange(5, 80).Draw(t, "nops")
 	for i := 0; i < n; i++ {
-		op := dOp{K: rapid.SampledFrom([]string{"discover", "discover", "discover", "request", "request", "request", "request", "decline", "release", "capture", "uncapture", "tick", "foreign", "purge"}).Draw(t, "k")}
+		op := dOp{K: rapid.SampledFrom([]string{"discover", "discover", "discover", "request", "request", "request", "request", "decline", "release", "capture", "uncapture", "tick", "foreign", "purge", "age"}).Draw(t, "k")}
 		op.C = rapid.SampledFrom([]int{0, 1, 2, 3, 0, 1, 2, 3, 6}).Draw(t, "c")
 		switch op.K {
 		case "discover":
@@ -57,6 +57,7 @@ func genDHCPHistory(t *rapid.T) dhcpHistory {
 			op.XID = rapid.IntRange(0, 3).Draw(t, "xid")
 			op.Name, op.PRL, op.Bcast = rapid.IntRange(0, 2).Draw(t, "name"), rapid.IntRange(0, 4).Draw(t, "prl"), rapid.Bool().Draw(t, "bcast")
 			op.Spoof = rapid.IntRange(0, 19).Draw(t, "spoof") == 0
+			op.VC, op.LT = rapid.SampledFrom([]int{0, 0, 0, 1, 2, 3}).Draw(t, "vc"), rapid.SampledFrom([]int{0, 0, 0, 1, 2}).Draw(t, "lt")
 		case "request":
 			op.Kind = rapid.SampledFrom([]string{"sel-ours", "sel-ours", "sel-ours", "sel-other", "renew", "renew", "rebind", "reboot", "renew-other"}).Draw(t, "kind")
 			op.Req = rapid.SampledFrom(dReqClasses).Draw(t, "req")
@@ -66,11 +67,14 @@ func genDHCPHistory(t *rapid.T) dhcpHistory {
 			op.XID = rapid.SampledFrom([]int{0, 0, 0, 1, 2}).Draw(t, "xid")
 			op.Name, op.PRL, op.Bcast = rapid.IntRange(0, 2).Draw(t, "name"), rapid.IntRange(0, 4).Draw(t, "prl"), rapid.Bool().Draw(t, "bcast")
 			op.Spoof = rapid.IntRange(0, 19).Draw(t, "spoof") == 0
+			op.VC, op.LT = rapid.SampledFrom([]int{0, 0, 0, 1, 2, 2, 3}).Draw(t, "vc"), rapid.SampledFrom([]int{0, 0, 0, 1, 1, 2}).Draw(t, "lt")
 		case "decline", "release":
 			op.Req = rapid.SampledFrom([]string{"current", "current", "offered", "other", "free", ""}).Draw(t, "req")
 			op.Srv = rapid.SampledFrom([]string{"ours", "ours", "other"}).Draw(t, "srv")
 		case "tick":
-			op.D = rapid.SampledFrom([]int{0, 0, 1}).Draw(t, "d")
+			op.D = rapid.SampledFrom([]int{0, 0, 1, 2, 2}).Draw(t, "d")
+		case "age":
+			op.D = rapid.IntRange(0, 3).Draw(t, "ageD")
 		case "foreign":
 			op.FMAC = rapid.SampledFrom([]int{mC1, mC2, mC3, mRouter}).Draw(t, "fmac")
 			op.Req = rapid.SampledFrom([]string{"free", "free", "other", "current"}).Draw(t, "req")
